@@ -27,7 +27,28 @@ func init() {
 	share("C06", agg)
 	share("C02", agg)
 	share("C02", &RuleDoc{Name: "R-AGG-CLASSIFY-EVERY", Text: "The GOP-cache classifiers classify every unit of an aggregation packet, including the last one: the classification of a unit precedes the 'scan finished' test of that iteration.", Run: ruleAggClassifyEvery})
+	share("C03", &RuleDoc{Name: "R-CLOSED-FLAG-OWNED", Text: "The `closed` flag of a consumer / push-stream role object is set only inside that type's own Close (close) method, which also detaches it from the stream: nothing else can make a later Close return early without having detached.", Run: ruleClosedFlagOwned})
+	share("C03", &RuleDoc{Name: "R-PLAY-ATTACHES-ONCE", Text: "onPlay attaches a consumer only where `status != statusPlaying` is established by the status test alone (a second PLAY, whatever its headers, never attaches a second consumer that the session then forgets).", Run: rulePlayAttachesOnce})
+	share("C04", &RuleDoc{Name: "R-QUEUE-FIELD-IMMUTABLE", Text: "consumption.recvQueue is assigned only when the consumption is constructed: the publisher pushes into it without a lock, also for a consumer that is detaching at that moment.", Run: ruleQueueFieldImmutable})
+	share("C04", &RuleDoc{Name: "R-CLASSIFY-VIDEO-ONLY", Text: "The H.264/H.265 GOP-cache classifiers are applied only to packets of the video channel (Channel == ChannelVideo established): an audio payload is never read as a NAL header, so a drop can only begin or end at a video key frame.", Run: ruleClassifyVideoOnly})
+	share("C05", &RuleDoc{Name: "R-REGIST-SAME-IS-NOOP", Text: "Regist retires the previous holder only where it is established to be a different stream: registering the stream that already holds the path does not close it.", Run: ruleRegistSameIsNoop})
+	share("C05", &RuleDoc{Name: "R-HLS-ACCESS-STAMPED-FIRST", Text: "Playlist.M3u8 records the access time on every path (before the not-ready return): a client polling a playlist that is not ready yet counts as recent HLS access for the idle guard.", Run: ruleHlsAccessStampedFirst})
 	addMutants(
+		&Mutant{Prop: "C03", Name: "c03-consume-sets-closed", File: "service/rtsp/session_roles.go",
+			Old: "		c.logger.Errorf(\"send pack error = %v , close socket\", err)\n\t\tc.Close()", New: "		c.logger.Errorf(\"send pack error = %v , close socket\", err)\n\t\tc.closed = true\n\t\tc.Session.Close()", Expect: "R-CLOSED-FLAG-OWNED"},
+		&Mutant{Prop: "C03", Name: "c03-replay-with-range-attaches", File: "service/rtsp/session.go",
+			Old: "\tif s.status == statusPlaying { // 已在播放", New: "\tif s.status == statusPlaying && req.Header.Get(FieldRange) == \"\" { // 已在播放", Expect: "R-PLAY-ATTACHES-ONCE"},
+		&Mutant{Prop: "C04", Name: "c04-queue-nilled", File: "media/consumption.go",
+			Old: "\t\tc.recvQueue.Reset()\n\t\tc.stream = nil", New: "\t\tc.recvQueue = nil\n\t\tc.stream = nil", Expect: "R-QUEUE-FIELD-IMMUTABLE"},
+		&Mutant{Prop: "C04", Name: "c04-classify-audio", File: "media/cache/h264cache.go",
+			Old: "\tif rtppack.Channel != rtp.ChannelVideo {\n\t\treturn false\n\t}", New: "\tif rtppack.Channel == rtp.ChannelVideoControl || rtppack.Channel == rtp.ChannelAudioControl {\n\t\treturn false\n\t}", Expect: "R-CLASSIFY-VIDEO-ONLY"},
+		&Mutant{Prop: "C05", Name: "c05-regist-same-retires", File: "media/global.go",
+			Old: "\tif s == oldSI { // 如果是同一个源\n\t\treturn\n\t}\n", New: "", Expect: "R-REGIST-SAME-IS-NOOP"},
+		&Mutant{Prop: "C05", Name: "c05-access-stamped-when-ready", File: "av/format/hls/playlist.go",
+			Old: "\tatomic.StoreInt64(&pl.lastAccessTime, time.Now().UnixNano())\n\tw := m3u8Pool.Get().(*bytes.Buffer)", New: "\tw := m3u8Pool.Get().(*bytes.Buffer)", Expect: "R-HLS-ACCESS-STAMPED-FIRST",
+			More: []Edit{{File: "av/format/hls/playlist.go", Old: "\tseq := segments[0].sequenceNo\n", New: "\tatomic.StoreInt64(&pl.lastAccessTime, time.Now().UnixNano())\n\tseq := segments[0].sequenceNo\n"}}},
+		&Mutant{Prop: "C02", Name: "c02-both-slots-one-packet", File: "media/cache/h264cache.go",
+			Old: "\tif sps { // 新序列参数,重置图像参数和 GopCache\n\t\tcache.sps = rtppack\n\t\treturn false\n\t}", New: "\tif sps { // 新序列参数,重置图像参数和 GopCache\n\t\tcache.sps = rtppack\n\t\tif pps {\n\t\t\tcache.pps = rtppack\n\t\t}\n\t\treturn false\n\t}", Expect: "R-CACHE-SIBLINGS"},
 		&Mutant{Prop: "C06", Name: "c06-h265-fu-start-keeps-fragments", File: "av/format/rtp/h265_depacketizer.go",
 			Old: "\t\th265dp.fragments = h265dp.fragments[:0]\n\t\t// 缓存片段\n\t\th265dp.fragments = append(h265dp.fragments, packet)\n\t\treturn", New: "\t\t// 缓存片段\n\t\th265dp.fragments = append(h265dp.fragments, packet)\n\t\treturn", Expect: "R-FU-GUARDED-APPEND"},
 		&Mutant{Prop: "C06", Name: "c06-stap-min-size-two", File: "av/format/rtp/h264_depacketizer.go",
@@ -157,4 +178,234 @@ func ruleAggClassifyEvery(c *Ctx) {
 		c.Decide(good, "agg-classify@"+fname(fn), p.InstrPos(finish.Instrs[len(finish.Instrs)-1]), "every unit is classified before the scan can finish", "the 'scan finished' test runs before the current unit is classified: the last unit of every aggregation packet is skipped, so [AUD,IDR] is not a key frame (joiners are replayed from an older key frame or get no GOP) and a parameter set that is last in its packet is not cached")
 	}
 	c.Floor("cache aggregation scans", n, 2)
+}
+
+// ------------------------------------------------------------ R-CLOSED-FLAG-OWNED
+
+func ruleClosedFlagOwned(c *Ctx) {
+	p := c.P
+	n := 0
+	for _, pkg := range []string{"service/rtsp", "service/wsp", "service/flv"} {
+		for _, fn := range p.FuncsInPkg(pkg) {
+			instrs(fn, func(ins ssa.Instruction) {
+				st, ok := ins.(*ssa.Store)
+				if !ok {
+					return
+				}
+				f, base, ok := fieldAddr(st.Addr)
+				if !ok || f.Name() != "closed" {
+					return
+				}
+				if b, isc := constBool(st.Val); !isc || !b {
+					return
+				}
+				owner := namedOf(base.Type())
+				if owner == nil {
+					return
+				}
+				if _, fresh := origin(base).(*ssa.Alloc); fresh {
+					return // initial value of an object under construction
+				}
+				n++
+				root := fn
+				for root.Parent() != nil {
+					root = root.Parent()
+				}
+				okOwner := false
+				if recv := root.Signature.Recv(); recv != nil {
+					if rn := namedOf(recv.Type()); rn != nil && rn.Obj() == owner.Obj() {
+						nm := strings.ToLower(root.Name())
+						okOwner = nm == "close" || nm == "disconnect"
+					}
+				}
+				c.Decide(okOwner, fmt.Sprintf("closed-flag:%s@%s", owner.Obj().Name(), fname(fn)), p.InstrPos(st), "set only by the type's own Close", owner.Obj().Name()+".closed is set to true outside "+owner.Obj().Name()+"'s own Close: the session cleanup later calls Close, which returns early because the flag is already set, so the detach (StopConsume / Unregist / release) never runs and the consumption stays attached after the connection is gone")
+			})
+		}
+	}
+	c.Floor("closed-flag stores", n, 6)
+}
+
+// ------------------------------------------------------------ R-PLAY-ATTACHES-ONCE
+
+func rulePlayAttachesOnce(c *Ctx) {
+	p := c.P
+	fn := p.Func("service/rtsp", "(*Session).onPlay")
+	playing, ok := pkgConst(p, "service/rtsp", "statusPlaying")
+	if fn == nil || !ok {
+		c.Lost("rtsp.Session.onPlay/statusPlaying", "not found")
+		return
+	}
+	c.touched(fname(fn))
+	n := 0
+	instrs(fn, func(ins ssa.Instruction) {
+		cc := callCommon(ins)
+		if cc == nil || cc.StaticCallee() == nil {
+			return
+		}
+		switch cc.StaticCallee().Name() {
+		case "asTCPConsumer", "asUDPConsumer", "asMulticastConsumer":
+		default:
+			return
+		}
+		n++
+		notPlaying := false
+		domConds(ins, func(cond ssa.Value, taken bool) {
+			bo, ok := cond.(*ssa.BinOp)
+			if !ok {
+				return
+			}
+			f, _, okf := fieldLoad(stripConv(bo.X))
+			k, okk := constInt(bo.Y)
+			if okf && okk && f.Name() == "status" && k == playing {
+				if bo.Op == token.EQL && !taken || bo.Op == token.NEQ && taken {
+					notPlaying = true
+				}
+			}
+		})
+		c.Decide(notPlaying, "play-attaches-once:"+cc.StaticCallee().Name(), p.InstrPos(ins), "status != Playing established", "a consumer is attached on a path where the session may already be playing (the 'already playing' answer depends on something besides the status): the second PLAY attaches a second consumption and overwrites s.consumer, the session end stops only the newest one and the first stays registered until the stream ends")
+	})
+	c.Floor("consumer role calls in onPlay", n, 3)
+}
+
+// ------------------------------------------------------------ R-QUEUE-FIELD-IMMUTABLE
+
+func ruleQueueFieldImmutable(c *Ctx) {
+	p := c.P
+	fv := p.FieldVar("media", "consumption", "recvQueue")
+	if fv == nil {
+		c.Lost("media.consumption.recvQueue", "field not found")
+		return
+	}
+	n := 0
+	for _, fn := range p.FuncsInPkg("media") {
+		instrs(fn, func(ins ssa.Instruction) {
+			st, ok := ins.(*ssa.Store)
+			if !ok {
+				return
+			}
+			f, base, ok := fieldAddr(st.Addr)
+			if !ok || f != fv {
+				return
+			}
+			n++
+			_, fresh := origin(base).(*ssa.Alloc)
+			c.Decide(fresh && !isNilConst(st.Val), "queue-field@"+fname(fn), p.InstrPos(st), "assigned while the consumption is being constructed", "consumption.recvQueue is reassigned after construction: sync.Map.Range can hand the publisher a consumption it loaded just before that consumer detached, send() then pushes into the released (nil) queue and the publisher goroutine panics inside WriteRtpPacket while holding joinLock - one failing consumer takes the stream down for everybody")
+		})
+	}
+	c.Floor("stores of consumption.recvQueue", n, 1)
+}
+
+// ------------------------------------------------------------ R-CLASSIFY-VIDEO-ONLY
+
+func ruleClassifyVideoOnly(c *Ctx) {
+	p := c.P
+	video, ok := pkgConst(p, "av/format/rtp", "ChannelVideo")
+	if !ok {
+		c.Lost("rtp.ChannelVideo", "constant not found")
+		return
+	}
+	n := 0
+	for _, t := range []string{"H264Cache", "HevcCache"} {
+		fn := p.Func("media/cache", "(*"+t+").CachePack")
+		if fn == nil {
+			c.Lost("cache."+t+".CachePack", "not found")
+			continue
+		}
+		c.touched(fname(fn))
+		instrs(fn, func(ins ssa.Instruction) {
+			cc := callCommon(ins)
+			if cc == nil || cc.StaticCallee() == nil || cc.StaticCallee().Name() != "getPalyloadType" {
+				return
+			}
+			n++
+			c.Decide(fieldEqEstablished(ins, "Channel", video), "classify-video-only@"+fname(fn), p.InstrPos(ins), "classified only when Channel == ChannelVideo", "packets of other channels reach the NAL classifier: an audio payload whose first byte looks like an IDR/IRAP header (G.711, low 5 bits = 5) is reported as a key frame, so a stalled consumer starts and stops discarding at an audio packet in the middle of a GOP and the GOP cache restarts there")
+		})
+	}
+	c.Floor("classifier calls", n, 2)
+}
+
+// ------------------------------------------------------------ R-REGIST-SAME-IS-NOOP
+
+func ruleRegistSameIsNoop(c *Ctx) {
+	p := c.P
+	fn := p.Func("media", "Regist")
+	if fn == nil {
+		c.Lost("media.Regist", "not found")
+		return
+	}
+	c.touched(fname(fn))
+	n := 0
+	instrs(fn, func(ins ssa.Instruction) {
+		cc := callCommon(ins)
+		if cc == nil || cc.StaticCallee() == nil {
+			return
+		}
+		nm := cc.StaticCallee().Name()
+		if nm != "close" && nm != "Close" && nm != "runZeroConsumersCloseTask" {
+			return
+		}
+		n++
+		differs := false
+		domConds(ins, func(cond ssa.Value, taken bool) {
+			bo, ok := cond.(*ssa.BinOp)
+			if !ok || (bo.Op != token.EQL && bo.Op != token.NEQ) {
+				return
+			}
+			// comparison of the new stream (parameter, possibly as interface) with the loaded old value
+			usesParam := false
+			for _, side := range []ssa.Value{bo.X, bo.Y} {
+				v := stripConv(side)
+				if mi, ok := v.(*ssa.MakeInterface); ok {
+					v = mi.X
+				}
+				if origin(v) == ssa.Value(fn.Params[0]) {
+					usesParam = true
+				}
+			}
+			if usesParam && (bo.Op == token.EQL && !taken || bo.Op == token.NEQ && taken) {
+				differs = true
+			}
+		})
+		c.Decide(differs, fmt.Sprintf("regist-same#%d", n), p.InstrPos(ins), "the previous holder is retired only when it is a different stream", "Regist retires the previous holder without having established that it differs from the stream being registered: registering a stream that already holds its path closes it (or hands it to the zero-consumer task as 'replaced') while it stays in the registry, so lookups and listings return a closed stream")
+	})
+	c.Floor("retire calls in Regist", n, 2)
+}
+
+// ------------------------------------------------------------ R-HLS-ACCESS-STAMPED-FIRST
+
+func ruleHlsAccessStampedFirst(c *Ctx) {
+	p := c.P
+	fn := p.Func("av/format/hls", "(*Playlist).M3u8")
+	if fn == nil {
+		c.Lost("hls.Playlist.M3u8", "not found")
+		return
+	}
+	c.touched(fname(fn))
+	res := RunPath(&PathRule[bool]{Fn: fn, Init: []bool{false},
+		Transfer: func(s bool, ins ssa.Instruction) []bool {
+			if cc := callCommon(ins); cc != nil && strings.HasPrefix(calleeName(cc), "sync/atomic.Store") && len(cc.Args) > 0 {
+				if f, _, ok := fieldAddr(cc.Args[0]); ok && f.Name() == "lastAccessTime" {
+					return []bool{true}
+				}
+			}
+			if st, ok := ins.(*ssa.Store); ok {
+				if f, _, ok := fieldAddr(st.Addr); ok && f.Name() == "lastAccessTime" {
+					return []bool{true}
+				}
+			}
+			return nil
+		}})
+	c.paths += res.N
+	ok := true
+	for ret, sts := range res.Exits() {
+		for _, s := range sts {
+			if !s {
+				ok = false
+				c.Bad("hls-access-stamped", p.InstrPos(ret), "a path of M3u8 returns without recording the access time: polls of a playlist that is not ready yet (stream just started, source stalled - GetM3u8 itself retries every second in that state) do not count as HLS access, and the idle task closes a stream an HLS client polled a moment ago")
+			}
+		}
+	}
+	if ok {
+		c.OK("hls-access-stamped", p.Pos(fn.Pos()), "access time recorded on every path")
+	}
 }
